@@ -156,10 +156,13 @@ inductive In
   | timer (now : Int)        -- the runtime looks at the backoff timer at `now` (fires iff now ≥ until)
   | resetBackoff (now : Int) -- ClientConn.ResetConnectBackoff
   | connLost (now : Int)     -- READY transport closed
+  | updateAddrs (now bo : Int)  -- SubConn.UpdateAddresses with a list that differs from the current one and
+                                -- does not contain the connected address; `bo` = the strategy's answer
+                                -- should a new attempt start
 deriving Repr
 
 def In.time : In → Int
-  | .connect t _ | .dialFailed t | .dialOk t | .timer t | .resetBackoff t | .connLost t => t
+  | .connect t _ | .dialFailed t | .dialOk t | .timer t | .resetBackoff t | .connLost t | .updateAddrs t _ => t
 
 /-- `resetTransportAndUnlock` / `resetConnectBackoff` as a transition system. -/
 def acStep (s : AC) : In → AC × List Obs
@@ -187,6 +190,16 @@ def acStep (s : AC) : In → AC × List Obs
     match s.phase with
     | .ready => ({ s with phase := .idle }, [])
     | _ => (s, [])
+  | .updateAddrs now bo =>
+    -- addrConn.updateAddrs: "We were not connecting, so do nothing but update the addresses" in
+    -- SHUTDOWN / TRANSIENT_FAILURE / IDLE — in particular a running backoff is NOT cut short; while
+    -- CONNECTING, or READY on an address no longer listed, the current iteration is cancelled and a
+    -- new attempt starts at once (`go ac.resetTransportAndUnlock()`), asking the strategy again.
+    match s.phase with
+    | .idle => (s, [])
+    | .backoff _ _ => (s, [])
+    | .connecting _ => ({ s with phase := .connecting bo }, [.ask s.idx, .dial now])
+    | .ready => ({ s with phase := .connecting bo }, [.ask s.idx, .dial now])
 
 /-- The observable trace of an event sequence. -/
 def trace (s : AC) : List In → List Obs
@@ -244,6 +257,7 @@ structure Sim where
   sticky : Bool := false           -- pick_first stays TRANSIENT_FAILURE until READY
   started : Bool := false          -- channel left IDLE at least once (Connect called)
   hangUntil : Option Int := none   -- in-flight hanging dial: its connect deadline
+  addr : Nat := 0                  -- which address list the subchannel currently holds
 deriving Repr
 
 /-- What the harness prints. -/
@@ -262,6 +276,27 @@ def Sim.attempt (s : Sim) (d : Int) : Sim × List SimEv :=
     ({ s with ac := (acStep ac1 (.dialOk s.now)).1, sticky := false }, [.bo s.now idx d, .dial s.now, .ok s.now])
   | .hang =>
     ({ s with ac := ac1, hangUntil := some (s.now + dialDuration s.minCT d) }, [.bo s.now idx d, .dial s.now])
+
+/-- The LB policy calls SubConn.UpdateAddresses([addr k]); `d` = the strategy's answer if a new
+    attempt starts. An identical list returns early (`equalAddressesIgnoringBalAttributes`). -/
+def Sim.updateAddrs (s : Sim) (k : Nat) (d : Option Int) : Sim × List SimEv :=
+  if k = s.addr then (s, []) else
+  let s := { s with addr := k }
+  match s.ac.phase with
+  | .idle => (s, [])
+  | .backoff _ _ => (s, [])
+  | _ =>
+    match d with
+    | none => (s, [.missing])
+    | some d =>
+      let idx := s.ac.idx
+      let ac1 := (acStep s.ac (.updateAddrs s.now d)).1
+      -- the cancelled attempt is abandoned (no failure is recorded); the new one runs per dialer mode
+      let s := { s with ac := ac1, hangUntil := none, sticky := if s.ac.phase = Phase.ready then false else s.sticky }
+      match s.mode with
+      | .fail => ({ s with ac := (acStep ac1 (.dialFailed s.now)).1, sticky := true }, [.bo s.now idx d, .dial s.now, .fail s.now])
+      | .ok => ({ s with ac := (acStep ac1 (.dialOk s.now)).1, sticky := false }, [.bo s.now idx d, .dial s.now, .ok s.now])
+      | .hang => ({ s with hangUntil := some (s.now + dialDuration s.minCT d) }, [.bo s.now idx d, .dial s.now])
 
 /-- Let virtual time run to `target`; `oracle` = the strategy's answers, in call order. -/
 def Sim.advance (s : Sim) (target : Int) (oracle : List Int) : Nat → Sim × List SimEv
